@@ -44,12 +44,23 @@ def canon_option(t, body):
     return (t, bytes(body))
 
 
+_SEEN = [0]
+
+
 def check_sd(H, b, ctx, replay):
     try:
         v, rest = H.SOMEIPSDHeader.parse(b)
     except (H.ParseError, UnicodeDecodeError):
         return False
     ctx.count("accepted_sd")
+    _SEEN[0] += 1
+    if _SEEN[0] % 2:
+        # a monitor looks at what it decoded before doing anything else with it: the public convenience attributes of the
+        # entries (reading changes nothing)
+        for e in v.entries:
+            e.options
+            e.options_resolved
+        ctx.count("decoded_entries_inspected_before_any_cycle")
     consumed = b[: len(b) - len(rest)]
     problems = []
     try:
